@@ -959,7 +959,8 @@ fn child_main(cap: usize, stack: usize) {
         };
         let loc = info.location().map(|l| format!("{}:{}", l.file().rsplit('/').next().unwrap_or(""), l.line())).unwrap_or_default();
         if let Ok(mut g) = PANIC_MSG.lock() {
-            *g = format!("{msg}@{loc}");
+            let m: String = msg.chars().take(100).collect();
+            *g = format!("{m}<at>{loc}");
         }
     }));
     let h = std::thread::Builder::new()
@@ -1103,7 +1104,7 @@ fn run_child(exe: &str, cases: &[String], o: &Opts) -> (Vec<String>, Option<Stri
                     let wall = t0.elapsed().as_millis() as u64;
                     let used = cpu_ms(pid).map(|c| c.saturating_sub(start_cpu));
                     let over = match used {
-                        Some(u) => u >= budget_ms || wall >= budget_ms * 30,
+                        Some(u) => u >= budget_ms || wall >= budget_ms * 10,
                         None => wall >= budget_ms,
                     };
                     if over {
@@ -1223,8 +1224,11 @@ fn oracle(line: &str, o: &Opts) -> String {
             if detail.starts_with("capacity_overflow") {
                 format!("FAIL:{dec}:capacity-overflow")
             } else {
-                let loc = detail.rsplit('@').next().unwrap_or("").to_string();
-                format!("FAIL:{dec}:panic:{loc}")
+                // stable signature: source file + message with the numbers removed
+                let (msg, loc) = detail.rsplit_once("<at>").unwrap_or((detail.as_str(), ""));
+                let file = loc.split(':').next().unwrap_or("");
+                let kind: String = msg.chars().filter(|c| !c.is_ascii_digit()).take(48).collect();
+                format!("FAIL:{dec}:panic:{file}:{kind}")
             }
         }
         "OOM" => format!("FAIL:{dec}:huge-alloc"),
